@@ -601,7 +601,7 @@ class Session(object):
 
         class StubPool(object):
             def __init__(self, task, worker_class, size=2, dry_run=False, progress_logger=None):
-                pass
+                self.progress_logger = progress_logger
 
             def process(self, tiles, progress):
                 tiles = list(tiles)
@@ -609,6 +609,10 @@ class Session(object):
                     sess.anomalies.append('hand-over of %d tiles' % len(tiles))
                 t = tuple(tiles[0])
                 sess.handed.append(t)
+                # what TileWorkerPool.process does after the hand-over (a hand-over writes no progress: the observed
+                # `saved` of the process event must be unchanged)
+                if self.progress_logger:
+                    self.progress_logger.log_step(progress)
                 sess.emit({'ev': 'process', 't': list(t)})
 
             def stop(self, force=False):
